@@ -70,7 +70,10 @@ func (k Keeper) HandleRelay(ctx sdk.Ctx, relay pc.Relay) (*pc.RelayResponse, sdk
 		return nil, err
 	}
 	// store the proof before execution, because the proof corresponds to the previous relay
-	relay.Proof.Store(maxPossibleRelays, servicerNode.EvidenceStore)
+	// (another handler may have stored the same proof, filled or sealed the evidence since the validation above)
+	if err := pc.StoreRelayProof(relay.Proof, maxPossibleRelays, servicerNode.EvidenceStore); err != nil {
+		return nil, err
+	}
 	// attempt to execute
 	respPayload, err := relay.Execute(hostedBlockchains, &servicerNodeAddr)
 	if err != nil {
